@@ -250,6 +250,7 @@ class FuncSpec:
         self.unroll = {}
         self.uses = []
         self.uses_post = []
+        self.uses_after = {}
         self.ghost_state = []
 
 
@@ -435,6 +436,27 @@ class SpecDB:
                     m = re.match(r'^(\w+)\s*>=\s*(.*)$', rest)
                     if not m: raise SpecError('induction VAR >= LOWER expected')
                     ctx.options['induction'] = (m.group(1), self.expand(parse_expr(m.group(2))))
+                elif head in ('use_forall', 'use_post_forall'):
+                    # use_forall VAR LO HI : LEMMA(args)
+                    m = re.match(r'^(\w+)\s+in\s+(.*?)\s*\.\.\s*(.*?)\s*:\s*(.*)$', rest)
+                    if not m: raise SpecError('use_forall VAR in LO .. HI : LEMMA(args) expected')
+                    c = self.expand(parse_expr(m.group(4)))
+                    if c.k != 'call': raise SpecError('use_forall ... : LEMMA(args) expected')
+                    c.when = None
+                    c.forall = (m.group(1), self.expand(parse_expr(m.group(2))), self.expand(parse_expr(m.group(3))))
+                    if head == 'use_post_forall': ctx.uses_post.append(c)
+                    else: (loop.uses if loop is not None else ctx.uses).append(c)
+                elif head == 'use_after':
+                    # use_after LOCAL : LEMMA(args) [when cond]
+                    vn, _, rest2 = rest.partition(':')
+                    cond = None
+                    if ' when ' in rest2:
+                        rest2, _, ctext = rest2.partition(' when ')
+                        cond = self.expand(parse_expr(ctext))
+                    c = self.expand(parse_expr(rest2.strip()))
+                    if c.k != 'call': raise SpecError('use_after LOCAL : LEMMA(args) expected')
+                    c.when = cond
+                    ctx.uses_after.setdefault(vn.strip(), []).append(c)
                 elif head in ('use', 'use_post'):
                     cond = None
                     if ' when ' in rest:
